@@ -546,6 +546,13 @@ func (f *fx) libraryCall(ct *callTarget, args []Val, pos token.Pos) Val {
 		f.assumeTyped(f.cur, r, t)
 		rs = append(rs, termVal(r))
 	}
+	// spec: ncalls("key"), lastret("key", i) also work for library callees without a contract
+	f.countCall(ct.key)
+	for i, r := range rs {
+		k := fmt.Sprintf("E:ret:%s:%d", ct.key, i)
+		f.regKey(k, r.T.Sort)
+		f.set(f.cur, k, r.T)
+	}
 	return f.packResults(rs)
 }
 
